@@ -42,6 +42,18 @@ def prod_lit(p):
     return '(%s, %s)' % (atoms, bonds)
 
 
+def molgen_respell(smi, rng):
+    """the same species written with another atom order (None if it has a single heavy atom)"""
+    from rdkit import Chem
+    m = Chem.MolFromSmiles(smi)
+    if m is None or m.GetNumAtoms() < 2:
+        return None
+    perm = list(range(m.GetNumAtoms()))
+    rng.shuffle(perm)
+    out = Chem.MolToSmiles(Chem.RenumberAtoms(m, perm), canonical=False)
+    return out if out != smi else None
+
+
 def run(ctx):
     ctx.assumptions += [
         'models Graph/Reaction.v (rule reader with doubled electron balance, edit application per match) on top of the C09 reader and C08 matcher; '
@@ -55,6 +67,9 @@ def run(ctx):
         rules.append(ringgen.rule(random.Random(rng.getrandbits(40)), balanced=(i % 4 != 0)))
     rules = list(dict.fromkeys(rules))
     jobs = [{'op': 'run_rule', 'text': t, 'smiles': rng.sample(MOLS, ctx.n(4, 10)), 'timeout': 30} for t in rules]
+    # one rule object meets the same species again under another atom numbering (what it remembers about a molecule must not be applied to another numbering)
+    for j in jobs[:40]:
+        j['smiles'] = list(j['smiles']) + [s_ for s_ in (molgen_respell(x_, rng) for x_ in j['smiles'][:3]) if s_]
     # the first fixed rules (C-H, C-C scission, dehydrogenation) always meet molecules that one match cuts into two IDENTICAL pieces
     for j in jobs[:3]:
         j['smiles'] = list(dict.fromkeys(j['smiles'] + ['CC', 'CCCC', '[H][H]', 'OO', 'C=C', 'CCCCCC']))
